@@ -365,6 +365,8 @@ def run(c, prog):
     from sa import db as _dbm
     _C16.rule_sername(core.Alias(c, "C06"), prog, _dbm.Database())     # two canonical properties written under one name lose a value
     rule_desc(c, prog)
+    from . import C07 as _C07
+    _C07.rule_finish_fifo(core.Alias(c, "C06"), prog)     # `identical tree shape, order`: the binary reader keeps file order
     _C15.rule_one(core.Alias(c, "C06"), prog, _dbm.Database())     # canonical + alias on one instance: XML keeps the alias's value, binary the canonical one
     rule_name(c, prog)
     rule_conv(c, prog)
